@@ -232,6 +232,12 @@ def prop_matrix(case, ctx):
 def fact_cases(draw, tier):
     m = draw(st.integers(1, 10 if tier == "quick" else 24))
     n = draw(st.integers(1, 10 if tier == "quick" else 24))
+    if draw(st.integers(0, 7)) == 0:
+        # a very wide / very tall matrix (the first unfolding of a long tensor: 4 x 1296, 2 x 2048): aspect ratio 100..300
+        m = draw(st.integers(1, 4))
+        n = m * draw(st.integers(100, 300))
+        if draw(st.booleans()):
+            m, n = n, m
     q = min(m, n)
     return {"m": m, "n": n, "seed": draw(gen.seeds),
             "sfam": draw(st.sampled_from(["geometric", "clustered", "repeated", "gapped", "lowrank", "gauss", "smallint"])),
@@ -241,7 +247,7 @@ def fact_cases(draw, tier):
             "qsel": draw(st.integers(0, 30)), "side": draw(st.sampled_from([-1, 1])),
             "cap": draw(st.sampled_from(["none", "none", "int", "float", "one"])), "capv": draw(st.integers(1, 8)),
             "rel": draw(st.booleans()), "give_to": draw(st.sampled_from(["m", "l", "r"])),
-            "sym": draw(st.booleans()), "routine": draw(st.sampled_from(["skeleton", "skeleton", "svd"])),
+            "sym": draw(st.booleans()) and max(m, n) <= 24, "routine": draw(st.sampled_from(["skeleton", "skeleton", "svd"])),
             "store": draw(st.sampled_from(["float64", "int64", "int32"]))}
 
 
